@@ -4,6 +4,7 @@
    theorem here (no C semantics): it is searched for by sanitised execution. *)
 From Coq Require Import ZArith List Bool Lia.
 From TV Require Import Common.Harness Common.CTables C18.Model C18.Law C18.Proofs C18.Tuple C18.Deleg.
+From TV Require C18.Owner C18.OwnerLedger.
 Import ListNotations.
 Open Scope Z_scope.
 
@@ -72,6 +73,78 @@ Theorem delegated_read_neutral :
     = match found with Some v => ind v a | None => 0 end.
 Proof. exact getattr_delegate_neutral. Qed.
 Print Assumptions delegated_read_neutral.
+
+(* RE-ENTRANCY.  Ownership discipline of the call frame (C18/Owner.v): a program over the C locals that passes the
+   static Owner.check never uses, increfs or releases a reference that is not guaranteed alive — for every adversary
+   (re-entrant code replacing the instance dict at every callback / release / dict update, callees returning any
+   object), every dict and every assignment of objects to the locals *)
+Theorem ownership_check_sound :
+  forall pinned p O B s adv, Owner.check pinned O B p = true -> Owner.rel O B s -> Owner.run pinned p s adv = true.
+Proof. exact Owner.check_sound. Qed.
+Print Assumptions ownership_check_sound.
+
+(* ... and the instruction sequences of getattr_trait, setattr_event, setattr_trait (assignment and delete paths),
+   for every combination of branch outcomes, use only owned (or caller-pinned, or just-looked-up) references *)
+Theorem reentrant_paths_use_only_owned_references :
+  forall n d e adv,
+    (forall a b c f g, Owner.run Owner.PIN (Owner.p_getattr_trait n a b c f g) (Owner.start d e) adv = true) /\
+    (forall a b c, Owner.run Owner.PIN (Owner.p_setattr_event a b c) (Owner.start d e) adv = true) /\
+    (forall a b c f g h i j k l m o, Owner.run Owner.PIN (Owner.p_setattr_trait n a b c f g h i j k l m o) (Owner.start d e) adv = true) /\
+    (forall a b c f g, Owner.run Owner.PIN (Owner.p_delattr_trait n a b c f g) (Owner.start d e) adv = true).
+Proof. exact Owner.reentrant_paths_use_only_owned_references. Qed.
+Print Assumptions reentrant_paths_use_only_owned_references.
+
+(* non-vacuity: the two seeded shapes (borrowed default in getattr_trait = C18-t3; old value without INCREF) are
+   rejected by the Owner.check and have a concrete adversary that makes them use a freed object *)
+Example borrowed_references_are_caught :
+  Owner.check Owner.PIN [] [] (Owner.p_getattr_trait_borrowed 1) = false /\ Owner.check Owner.PIN [] [] (Owner.p_setattr_trait_borrowed_old 1) = false
+  /\ (exists n d e adv, Owner.run Owner.PIN (Owner.p_getattr_trait_borrowed n) (Owner.start d e) adv = false)
+  /\ (exists n d e adv, Owner.run Owner.PIN (Owner.p_setattr_trait_borrowed_old n) (Owner.start d e) adv = false).
+Proof.
+  split; [reflexivity|]. split; [reflexivity|]. split;
+    [exact Owner.getattr_trait_borrowed_refuted | exact Owner.setattr_trait_borrowed_old_refuted].
+Qed.
+
+(* the two transcriptions of getattr_trait — the ledger of C18/Model.v and the ownership program — have the same net
+   reference effect on every object, for every configuration (the branch flags of the program are the model's:
+   default computed, post_setattr present / succeeding, notifiers present, and some notifier outcome) *)
+Theorem getattr_trait_transcriptions_agree :
+  forall (c : cfg) (t : tcfg) (d : dict) (n : Z) (env : nat -> atom) (a : atom),
+    let m := getattr_trait c t d n [] in
+    match fst (fst (default_value_for t [])) with
+    | None =>
+        net (fst (OwnerLedger.ledger_of env d (Owner.p_getattr_trait n false false false false false) [])) a
+        = net (r_ledger m) a
+    | Some r =>
+        env Owner.L_RES = r ->
+        let '(hp, pok) := OwnerLedger.post_flags t in
+        exists notif_ok,
+          net (fst (OwnerLedger.ledger_of env d (Owner.p_getattr_trait n true hp pok (has_notifiers t) notif_ok) [])) a
+          = net (r_ledger m) a
+    end.
+Proof. exact OwnerLedger.getattr_trait_transcriptions_agree. Qed.
+Print Assumptions getattr_trait_transcriptions_agree.
+
+(* the two paths of the current tree that do NOT satisfy the discipline (known findings, reproduced on the
+   implementation under PYTHONMALLOC=debug): setattr_delegate holds the delegate, has_traits_setattro the trait
+   object, only as borrowed references across the target's validator *)
+Theorem borrowed_across_callback_refuted :
+  (Owner.check Owner.PIN [] [] (Owner.p_setattr_delegate 9) = false /\
+   exists d e adv, Owner.run Owner.PIN (Owner.p_setattr_delegate 9) (Owner.start d e) adv = false) /\
+  (Owner.check Owner.PIN [] [] (Owner.p_has_traits_setattro 9) = false /\
+   exists d e adv, Owner.run Owner.PIN (Owner.p_has_traits_setattro 9) (Owner.start d e) adv = false).
+Proof. split; [exact Owner.setattr_delegate_borrowed_refuted | exact Owner.has_traits_setattro_borrowed_refuted]. Qed.
+Print Assumptions borrowed_across_callback_refuted.
+
+(* the same shape on the read path (has_traits_getattro -> getattr_trait with a default callable that removes the
+   instance trait) and in trait_property_changed (the notifier list read before the property getter runs) *)
+Theorem borrowed_trait_on_read_and_property_changed_refuted :
+  (Owner.check Owner.PIN [] [] (Owner.p_has_traits_getattro 9) = false /\
+   exists d e adv, Owner.run Owner.PIN (Owner.p_has_traits_getattro 9) (Owner.start d e) adv = false) /\
+  (Owner.check Owner.PIN [] [] (Owner.p_trait_property_changed 9) = false /\
+   exists d e adv, Owner.run Owner.PIN (Owner.p_trait_property_changed 9) (Owner.start d e) adv = false).
+Proof. exact Owner.borrowed_trait_on_read_and_property_changed_refuted. Qed.
+Print Assumptions borrowed_trait_on_read_and_property_changed_refuted.
 
 (* general form of T3's obligations (instantiated on the regenerated tables at run time):
    any tables passing the boolean check make func_index terminate inside the searched table for
